@@ -7,6 +7,8 @@ set -u
 src="$1"; name="$2"; prop="$3"; shift 3
 extra="$*"
 VDIR=${VDIR:-/tmp/vdev}
+# scratch copy of /verif (so that /verif/evidence and /verif/replays are left alone); created on first use, remove it afterwards
+[ -d "$VDIR" ] || { mkdir -p "$VDIR" && rsync -a --exclude .git --exclude replays --exclude bin /verif/ "$VDIR"/; }
 export GOFLAGS=-mod=mod GOPROXY=off GOSUMDB=off GOTOOLCHAIN=local
 W=${W:-/tmp/mut-me}
 [ -d $W ] || git -C /repo worktree add -q --detach $W HEAD
